@@ -12,6 +12,9 @@ fn fixtures() {
     for (name, case, note) in props::c03::fixtures() {
         write_fixture("C03", name, &case, note);
     }
+    for (name, case, note) in props::c15::fixtures() {
+        write_fixture("C15", name, &case, note);
+    }
     for (name, case, note) in props::c20::fixtures() {
         write_fixture("C20", name, &case, note);
     }
@@ -65,6 +68,7 @@ fn main() {
         "C12" => run_property(&props::c12::C12, &args),
         "C13" => run_property(&props::c13::C13, &args),
         "C14" => run_property(&props::c14::C14, &args),
+        "C15" => run_property(&props::c15::C15, &args),
         "C17" => run_property(&props::c17::C17, &args),
         "C20" => run_property(&props::c20::C20, &args),
         x => {
